@@ -81,6 +81,9 @@ var programs = []program{
 	{name: "match-loop", src: `fn main() { let i = 0; loop { i += 1; let r = match i % 3 { 0 => 1, 1 => 2, _ => 3 }; } }`, infinite: true, kmaxVM: 30, kmaxTree: 150},
 	{name: "uncaught-throw", src: `fn main() { let i = 0; while i < 200 { i += 1; } throw("bye"); }`, kmaxVM: 40, kmaxTree: 200},
 	{name: "fatal-index", src: `fn main() { let l = [1]; let i = 0; while i < 200 { i += 1; } println(l[5]); }`, kmaxVM: 40, kmaxTree: 200},
+	{name: "for-empty-huge", src: `fn main() { for i in 0..9000000000000000000 { } }`, infinite: true, kmaxVM: 12, kmaxTree: 30},
+	{name: "for-call-empty", src: "fn nop() { }\nfn main() { for i in 0..9000000000000000000 { nop(); } }", infinite: true, kmaxVM: 20, kmaxTree: 60},
+	{name: "retry-loop", src: "fn flaky(n: int) { if n % 2 == 0 { throw(\"flaky\"); } }\nfn main() { let attempts = 0; loop { try { flaky(attempts); flaky(attempts + 1); } catch e { attempts += 1; } } }", infinite: true, kmaxVM: 40, kmaxTree: 150},
 	{name: "spawn-1", src: "fn w(n: int) { let i = 0; while i < n { i += 1; } println(\"w\", n); }\nfn main() { spawn w(300); let j = 0; while j < 300 { j += 1; } println(\"main\"); }", multi: true, kmaxVM: 60},
 	{name: "spawn-3-inf", src: "fn w(n: int) { loop { let x = n + 1; } }\nfn main() { spawn w(1); spawn w(2); spawn w(3); loop { } }", multi: true, infinite: true, kmaxVM: 40},
 	{name: "spawn-4-mixed", src: "fn w(n: int) { let i = 0; while i < n { i += 1; } println(\"w\", n); }\nfn main() { spawn w(10); spawn w(2000); spawn w(50); spawn w(4000); println(\"main\"); }", multi: true, kmaxVM: 120},
@@ -188,6 +191,7 @@ type runState struct {
 	mu       sync.Mutex
 	after    map[uint]int64
 	maxAfter int64
+	total    atomic.Int64
 }
 
 var (
@@ -199,7 +203,15 @@ func installHooks() {
 	hooksOnce.Do(func() {
 		runtime.VerifStep = func(c *runtime.Core) {
 			st := cur.Load()
-			if st == nil || !st.cc.closed.Load() {
+			if st == nil {
+				return
+			}
+			if !st.cc.closed.Load() {
+				// the k-th poll was not reached within the step budget (the core may have stopped
+				// polling): the host cancels asynchronously, "at any moment of the run"
+				if st.total.Add(1) == preCancelSteps && st.cc.k < 1<<50 {
+					st.cc.cancelNow()
+				}
 				return
 			}
 			st.mu.Lock()
